@@ -58,6 +58,8 @@ class Contract:
         self.ghost_at = []        # (predicate on ast node, python hook) ghost statements
         self.pure = False
         self.entry_assume = []    # spec exprs assumed at entry in addition to requires (typing)
+        self.ghost_entry_ = []    # (ghost name, spec expr): ghost assignments at function entry
+        self.ret_cases = None     # [(label, guard spec expr over the pre-state, Ty)]
 
     # -- DSL ----------------------------------------------------------------------------------
     def param(self, name, ty):
@@ -66,6 +68,16 @@ class Contract:
 
     def returns(self, ty):
         self.ret = ty
+        return self
+
+    def ghost_entry(self, name, src):
+        """Ghost statement executed at function entry: `name = <spec expr>`."""
+        self.ghost_entry_.append((name, src))
+        return self
+
+    def returns_cases(self, *cases):
+        """The result has one of several static types: (label, guard, Ty) each."""
+        self.ret_cases = list(cases)
         return self
 
     def requires(self, src, label=None):
